@@ -48,7 +48,7 @@ def run_shard(spec):
     if spec["kind"] == "construct":
         return construct_shard(spec, WHICH, PROP)
     return common.run_sessions(spec, PROP, make_monitors, cfg_fn, nsteps=(15, 35),
-                               weights=WEIGHTS, refusal_rate=0.4)
+                               weights=WEIGHTS, refusal_rate=0.4, history_share=0.25)
 
 
 def construct_shard(spec, which, prop):
